@@ -242,9 +242,11 @@ package rapid
 
 //@ func generatorImpl.value
 //@   params impl, t
-//@   ensures drawn >= old(drawn)
-//@   panics any: drawn >= old(drawn)
-//@   modifies drawn, t.failed, t.cleanups, t.ctx, t.cancelCtx, t.draws
+//@   assumes "generator implementations signal a failure only by panicking, never by recording it on the enclosing *T"
+//@   ensures t.failed == old(t.failed)
+//@   ensures drawn >= old(drawn) && relyUser(t)
+//@   panics any: drawn >= old(drawn) && relyUser(t)
+//@   modifies drawn, t.failed, t.cleanups, elems(t.cleanups), t.ctx, t.cancelCtx, t.draws
 
 //@ func generatorImpl.String
 //@   params impl
@@ -254,9 +256,12 @@ package rapid
 //@   modifies g.str, g.strOnce
 
 //@ func (*Generator).value
+//@   assumes "generator implementations signal a failure only by panicking, never by recording it on the enclosing *T"
+//@   ensures t.failed == old(t.failed)
 //@   ensures [C03] drawn > old(drawn)
-//@   panics any: drawn >= old(drawn)
-//@   modifies drawn, t.failed, t.cleanups, t.ctx, t.cancelCtx, t.draws
+//@   ensures relyUser(t)
+//@   panics any: drawn >= old(drawn) && relyUser(t)
+//@   modifies drawn, t.failed, t.cleanups, elems(t.cleanups), t.ctx, t.cancelCtx, t.draws
 
 // ---------------------------------------------------------------------------------------------
 // collections.go
@@ -288,6 +293,7 @@ package rapid
 // combinators.go
 
 //@ func find
+//@   noframe "calls an arbitrary generator attempt function"
 //@   requires [C03] tries >= 0 && gen != nil
 //@   panics any: true
 //@   modifies drawn, t.failed, t.cleanups, t.ctx, t.cancelCtx, t.draws
@@ -530,7 +536,7 @@ package rapid
 
 //@ func newT
 //@   ensures [C10,C11] fresh(result) && clean(result) && unlocked(result)
-//@   ensures [C04,C10] result.s == s && result.tbLog == tbLog && result.tb != nil
+//@   ensures [C04,C10] result.s == s && result.tbLog == tbLog && result.tb != nil && arr(result.cleanups) == nil
 
 //@ func panicToError
 //@   ensures [C02] (result == nil) == (p == nil)
@@ -544,3 +550,65 @@ package rapid
 //@   ensures [C02] implies(result != nil, fresh(result))
 //@   ensures drawn >= old(drawn)
 //@   modifies t.failed, t.cleanups, elems(t.cleanups), t.ctx, t.cancelCtx, t.cleaning.v, t.draws, drawn, lockmode[addr(t.mu)]
+
+// ---------------------------------------------------------------------------------------------
+// combinators.go: Custom
+
+//@ func (*customGen).maybeValue
+//@   noframe "calls the user's generator function on a fresh inner T"
+//@   requires [C02] g.fn != nil
+//@   ensures [C02] now(t).failed == ""
+//@   ensures [C10,C11] fresh(now(t)) && len(now(t).cleanups) == 0 && now(t).ctx == nil && now(t).cancelCtx == nil
+//@   panics any [C02]: true
+//@   modifies drawn
+
+// ---------------------------------------------------------------------------------------------
+// statemachine.go
+//
+// pendingCheck: an action has completed (or Repeat has just started) and the invariant has not been run since.
+
+//@ ghost pendingCheck Bool
+
+//@ func runAction
+//@   noframe "calls the user's action"
+//@   assumes-nonnil-calls "the actions map given to Repeat holds no nil functions, and every key the key generator returns is in the map"
+//@   requires [C08] t.failed == "" && unlocked(t)
+//@   ensures [C02,C08] t.failed == "" && implies(skipped, invalid) && unlocked(t) && drawn >= old(drawn)
+//@   panics any [C02,C08]: unlocked(t) && implies(isInvalidData(panicval), t.failed != "")
+//@   modifies drawn, t.failed, t.cleanups, elems(t.cleanups), t.ctx, t.cancelCtx, t.draws, lockmode[addr(t.mu)]
+
+//@ func (*Generator).Draw
+//@   noframe "draws through arbitrary generator implementations"
+//@   assumes "generator implementations signal a failure only by panicking, never by recording it on the enclosing *T"
+//@   ensures t.failed == old(t.failed)
+//@   ensures drawn >= old(drawn) && relyUser(t)
+//@   panics any: drawn >= old(drawn) && relyUser(t)
+//@   modifies drawn, t.failed, t.cleanups, elems(t.cleanups), t.ctx, t.cancelCtx, t.draws
+
+//@ func (*stateMachine).executeAction
+//@   noframe "calls user actions"
+//@   requires [C08] t.failed == "" && unlocked(t)
+//@   ensures [C02,C08] t.failed == "" && unlocked(t) && drawn >= old(drawn)
+//@   ensures [C08] now(n) < validActionTries
+//@   panics any [C08]: true
+//@   modifies drawn, t.failed, t.cleanups, elems(t.cleanups), t.ctx, t.cancelCtx, t.draws, lockmode[addr(t.mu)]
+//@   loop 0 invariant [C08] 0 <= n && n <= validActionTries && t.failed == "" && unlocked(t) && drawn >= old(drawn)
+//@   loop 0 decreases validActionTries - n
+
+//@ func (*T).Repeat
+//@   noframe "calls user actions and the invariant"
+//@   assumes-nonnil-calls "the actions map given to Repeat holds no nil functions"
+//@   requires [C08] t.failed == "" && unlocked(t)
+//@   requires [C08] pendingCheck
+//@   ensures [C08] t.failed == "" && unlocked(t)
+//@   panics any [C08]: true
+//@   modifies drawn, pendingCheck, t.failed, t.cleanups, elems(t.cleanups), t.ctx, t.cancelCtx, t.draws, lockmode[addr(t.mu)]
+//@   at sm.check#0 assert [C08] pendingCheck && t.failed == ""
+//@   at sm.check#0 set pendingCheck = false
+//@   at repeat.more#0 assert [C08] !pendingCheck
+//@   at sm.executeAction#0 assert [C08] !pendingCheck
+//@   at sm.executeAction#0 set pendingCheck = result
+//@   at sm.check#1 assert [C08] pendingCheck && t.failed == ""
+//@   at sm.check#1 set pendingCheck = false
+//@   at repeat.reject#0 assert [C08] !pendingCheck
+//@   loop 1 invariant [C08] t.failed == "" && unlocked(t) && !pendingCheck && repeatInv(repeat) && groupUsed(repeat)
